@@ -180,7 +180,12 @@ def impl(case):
         if case.get("base"):
             b = case["base"]
             base = TypeRegistry("base", cache=b.get("cache", False), shortcut="__bconv__", default=dflt(b.get("default")))
-        reg = TypeRegistry("t", base=base, cache=case["cache"], shortcut="__conv__", default=dflt(case.get("default")))
+        kw = {}
+        if case.get("validator") == "odd":
+            # a registry with its own idea of a valid target (also applied to the shortcut attribute)
+            kw["validator"] = lambda f: getattr(f, "fid", 0) % 2 == 1
+        reg = TypeRegistry("t", base=base, cache=case["cache"], shortcut=None if case.get("noshortcut") else "__conv__",
+                           default=dflt(case.get("default")), **kw)
         attr = "__conv__"
         register, resolve = reg.register, reg.resolve
         convert = None
@@ -267,8 +272,15 @@ def accepts(tb, r, t):
     return True
 
 
-def well_formed(r):
-    if r["fn"] == 0:
+def valid_target(case, f, own=True):
+    """does the registry's validator accept converter number f (0 = not callable)"""
+    if f <= 0:
+        return False
+    return f % 2 == 1 if (own and case.get("validator") == "odd") else True
+
+
+def well_formed(r, case=None, own=True):
+    if not valid_target(case or {}, r["fn"], own):
         return False
     if r.get("custom") is not None:
         return True
@@ -290,18 +302,21 @@ def lib_regs(tb):
     return [{"custom": k, "classes": [], "sub": True, "fn": f, "prio": p} for k, f, p in tb.get("lib", [])]
 
 
-def eff_shortcut(tb, pairs):
-    """the classes that carry a callable shortcut attribute: the class it was set on and its subclasses (a class
-    attribute is inherited); a non-callable attribute (f < 0) is no shortcut"""
-    return {t: f for c, f in pairs if f >= 0 for t in range(NT) if [t, c] in tb["issub"]}
+def eff_shortcut(tb, pairs, case=None, own=True):
+    """the classes that carry a shortcut attribute the registry's validator accepts: the class it was set on and its
+    subclasses (a class attribute is inherited); a non-callable attribute (f < 0) is no shortcut; a registry without a
+    shortcut attribute name ignores them all"""
+    if own and (case or {}).get("noshortcut"):
+        return {}
+    return {t: f for c, f in pairs if valid_target(case or {}, f, own) for t in range(NT) if [t, c] in tb["issub"]}
 
 
 def spec_run(case, tb):
     mode = case.get("mode", "fresh")
     regs, bregs = list(lib_regs(tb)), []
-    shortcut = eff_shortcut(tb, case.get("shortcut", []))
+    shortcut = eff_shortcut(tb, case.get("shortcut", []), case)
     b = case.get("base") or None
-    bshort = eff_shortcut(tb, (b or {}).get("shortcut", []))
+    bshort = eff_shortcut(tb, (b or {}).get("shortcut", []), case, own=False)
     outs = []
 
     def base_answer(t):
@@ -313,7 +328,7 @@ def spec_run(case, tb):
     for op in case["ops"]:
         if "reg" in op or "regb" in op:
             r = op.get("reg") or op.get("regb")
-            if well_formed(r):
+            if well_formed(r, case, own="reg" in op):
                 (regs if "reg" in op else bregs).append(r)
                 outs.append("ok")
             else:
@@ -448,6 +463,10 @@ def gen_case(rng, maxlen=8, mode=None):
     case = {"mode": mode, "cache": True if lib else rng.random() < 0.6, "ops": ops}
     if rng.random() < 0.3:
         case["shortcut"] = [[7, 900]] if rng.random() < 0.7 else [[7, -1]]
+    if mode == "fresh" and rng.random() < 0.15:
+        case["validator"] = "odd"      # even-numbered converters (and the shortcut converter 900) are refused
+    if mode == "fresh" and rng.random() < 0.1:
+        case["noshortcut"] = True
     if mode in ("fresh", "base") and rng.random() < 0.4:
         case["default"] = 990          # with a base registry the own default is never used (base.py:125-128)
     if mode == "base":
@@ -534,16 +553,17 @@ class C16(Check):
         mode = case.get("mode", "fresh")
         t = tables(mode)
         line = {k: t[k] for k in ("issub", "isinst", "hasattr", "custom")}
-        line["invalid"] = [0]
+        fns = {(o.get("reg") or o.get("regb") or {}).get("fn", 0) for o in case["ops"]}
+        line["invalid"] = sorted(f for f in fns | {0} if not valid_target(case, f))
         line["cache"] = case["cache"]
-        line["shortcut"] = [[a, b] for a, b in eff_shortcut(t, case.get("shortcut", [])).items()]
+        line["shortcut"] = [[a, b] for a, b in eff_shortcut(t, case.get("shortcut", []), case).items()]
         line["fallback"] = []
         line["legacy"] = bool(case.get("legacy"))
         ops = [({"res": o["conv"]} if "conv" in o else o) for o in case["ops"]]
         if mode == "base" or case.get("base"):
             b = case["base"]
             line["base"] = {"cache": b.get("cache", False),
-                            "shortcut": [[a, c] for a, c in eff_shortcut(t, b.get("shortcut", [])).items()],
+                            "shortcut": [[a, c] for a, c in eff_shortcut(t, b.get("shortcut", []), case, own=False).items()],
                             "fallback": [[x, b["default"]] for x in range(NT)] if b.get("default") is not None else []}
         else:
             if mode == "fresh" and case.get("default") is not None:
@@ -595,7 +615,7 @@ class C16(Check):
         for op in case["ops"]:
             r = op.get("reg") or op.get("regb")
             if r is not None:
-                if not well_formed(r):
+                if not well_formed(r, case, own="reg" in op):
                     continue
                 if any(accepts(tb, r, t) for t in resolved):
                     nontrivial = True
